@@ -30,6 +30,8 @@ FUNCS = [
     "torchtree.evolution.tree_likelihood:TreeLikelihoodModel._call",
     "torchtree.evolution.tree_likelihood:TreeLikelihoodModel.calculate_with_tip_partials",
     "torchtree.evolution.tree_likelihood:TreeLikelihoodModel.calculate_with_tip_states",
+    "torchtree.evolution.alignment:read_fasta_sequences",
+    "torchtree.evolution.alignment:Alignment.from_json",
     "torchtree.evolution.tree_model:parse_tree",
     "torchtree.evolution.tree_model:setup_indexes",
     "torchtree.evolution.tree_model:AbstractTreeModel.update_traversals",
@@ -680,6 +682,76 @@ def ob_compress(tier, seed):
     return Ob("C01.compress", "B", body, clause="pattern compression (bounded enumeration)", funcs=FUNCS)
 
 
+def _fasta_spec(text):
+    """the FASTA format as the statement's 'alignment' needs it: a record starts at a line whose first non-blank character is '>',
+    its name is the rest of that line without surrounding white space, its sequence the concatenation of the following lines
+    without their surrounding white space (line ends \n or \r\n, blank lines ignored); records in file order"""
+    recs = []
+    for raw in text.replace("\r\n", "\n").split("\n"):
+        line = raw.strip()
+        if line.startswith(">"):
+            recs.append([line[1:].strip(), ""])
+        elif line and recs:
+            recs[-1][1] += line
+    return [(a, b) for a, b in recs]
+
+
+def ob_fasta():
+    """read_fasta_sequences / Alignment.from_json({'file': ...}) against the format, over an enumeration of lay-outs (bounded)"""
+    def body():
+        import os
+        import shutil
+        import tempfile
+        from torchtree.evolution import alignment as am
+        from torchtree.evolution.taxa import Taxa, Taxon
+        names = ["B", "A", "D", "C"]
+        seqs = ["ACGTRN-ACGTTAC", "CCGYAN?GTTAGCA", "GATTAC-KAACCGT", "TAGSWMBDCGTNNA"]
+        n = 0
+        d = tempfile.mkdtemp(prefix="vt_fasta_")
+        try:
+            for width in (None, 5, 8):
+                for deco in ("none", "trailing blanks", "leading tab", "mixed", "crlf", "blank lines", "no final newline", "blanks after name"):
+                    lines = []
+                    for r, (nm, sq) in enumerate(zip(names, seqs)):
+                        lines.append(">" + nm + ("  " if deco == "blanks after name" else ""))
+                        chunks = [sq] if width is None else [sq[i:i + width] for i in range(0, len(sq), width)]
+                        for c, ch in enumerate(chunks):
+                            if deco == "trailing blanks" and (r + c) % 2 == 0:
+                                ch = ch + "  "
+                            elif deco == "leading tab" and (r + c) % 3 == 0:
+                                ch = "\t" + ch
+                            elif deco == "mixed" and r == 1:
+                                ch = " " + ch + " \t"
+                            lines.append(ch)
+                        if deco == "blank lines":
+                            lines.append("")
+                    eol = "\r\n" if deco == "crlf" else "\n"
+                    text = eol.join(lines) + ("" if deco == "no final newline" else eol)
+                    fn = os.path.join(d, "a.fa")
+                    with open(fn, "w", newline="") as fp:
+                        fp.write(text)
+                    want = _fasta_spec(text)
+                    if want != list(zip(names, seqs)):
+                        raise Undecided("the FASTA specification of the contract does not reproduce the records it wrote")
+                    got = [(q.taxon, q.sequence) for q in am.read_fasta_sequences(fn)]
+                    n += 1
+                    if got != want:
+                        bad = [(g, w) for g, w in zip(got, want) if g != w][:2]
+                        raise Refuted("read_fasta_sequences (line width %s, %s): records differ from the file's content, e.g. %r" % (width, deco, bad),
+                                      witness={"file_text": text, "got": got, "want": want}, confirmed=True)
+                    taxa = Taxa("taxa", [Taxon(nm, {}) for nm in sorted(names)])
+                    aln = am.Alignment.from_json({"id": "a", "type": "Alignment", "datatype": "nucleotide", "taxa": "taxa", "file": fn}, {"taxa": taxa})
+                    rows = [(q.taxon, q.sequence) for q in aln]
+                    if sorted(rows) != sorted(want) or len({len(b) for _, b in rows}) != 1:
+                        raise Refuted("Alignment.from_json(file) (line width %s, %s): rows %r" % (width, deco, rows[:2]), witness={"file_text": text}, confirmed=True)
+        finally:
+            shutil.rmtree(d, ignore_errors=True)
+        return {"backend": "enum", "cases": n, "bounded": "4 records x 14 columns, line widths none/5/8, 8 white-space / line-end lay-outs",
+                "statement": "read_fasta_sequences(file) and Alignment.from_json({'file': file}) return exactly the records of the file (names and sequences "
+                             "without surrounding white space, wrapped lines joined, file order kept)"}
+    return Ob("C01.fasta", "B", body, clause="alignment read from a FASTA file (bounded enumeration of lay-outs)", funcs=FUNCS)
+
+
 # ----------------------------------------------------------------------------------------------
 
 
@@ -947,4 +1019,5 @@ def obligations(tier, seed):
         obs.append(ob_postorder(T, tier, seed))
     obs.append(ob_tips())
     obs.append(ob_compress(tier, seed))
+    obs.append(ob_fasta())
     return obs
